@@ -125,7 +125,8 @@ def finish (st : LoopSt) : Except Cls RObj :=
   | some n, some (_, nb) =>
     if nb > 0 && st.bonds.isNone then .error .load
     else .ok { atcoords := some [n, 3], atnums := some [n], atcharges := [n], atffparams := [n],
-               bonds := st.bonds.map fun m => [m, 3] }
+               bonds := st.bonds.map fun m => [m, 3],
+               hasTitle := true, hasAtcharges := true, hasAtffparams := true }
 
 def loadOneF (fuel : Nat) : Lit → Option (Except Cls RObj × Lit) := fun l =>
   match loop fuel {} l with
